@@ -17,6 +17,7 @@ import shutil
 import subprocess
 import time
 
+TLIMIT = 120  # seconds per solver call (raised for the thorough tier)
 Z3 = "/usr/bin/z3"
 CVC5 = "cvc5"
 
@@ -579,9 +580,9 @@ def solve(lines, want_model_vars=()):
     text = "\n".join(lines) + "\n(check-sat)\n"
     res = {}
     t0 = time.time()
-    for name, cmd in (("z3", [Z3, "-in", "-T:120"]), ("cvc5", [CVC5, "--lang", "smt2", "--tlimit=120000"])):
+    for name, cmd in (("z3", [Z3, "-in", "-T:%d" % TLIMIT]), ("cvc5", [CVC5, "--lang", "smt2", "--tlimit=%d" % (TLIMIT * 1000)])):
         try:
-            p = subprocess.run(cmd, input=text, capture_output=True, text=True, timeout=150)
+            p = subprocess.run(cmd, input=text, capture_output=True, text=True, timeout=TLIMIT + 30)
             o = p.stdout + p.stderr
         except subprocess.TimeoutExpired:
             o = "unknown (timeout)"
@@ -602,7 +603,7 @@ def solve(lines, want_model_vars=()):
     model = {}
     if verdict == "sat" and want_model_vars:
         text2 = text + "(get-value (" + " ".join(want_model_vars) + "))\n"
-        p = subprocess.run([Z3, "-in", "-T:120"], input=text2, capture_output=True, text=True, timeout=150)
+        p = subprocess.run([Z3, "-in", "-T:%d" % TLIMIT], input=text2, capture_output=True, text=True, timeout=TLIMIT + 30)
         for m in re.finditer(r"\(([^\s()]+) (#x[0-9a-fA-F]+|#b[01]+|\(- \d+\)|-?\d+|true|false|\(_ bv\d+ \d+\))\)", p.stdout):
             model[m.group(1)] = m.group(2)
     return verdict, model, dt, res
